@@ -256,7 +256,7 @@ theorem rwu_ok (ext : Ext) (hio : NoIOErr ext) (g : GroupSet) (query : GQuery) (
 /-- `os.Stat` answers for the file system `fs`: the size of a file that exists, an error for one that does not -/
 def StatAgrees (ext : Ext) (fs : FS) : Prop :=
   ∀ p, match fsGet fs p with
-    | some c => ext.osStat p = (⟨(c.length : Int)⟩, none)
+    | some c => ext.osStat p = ({ size := (c.length : Int) }, none)
     | none => (ext.osStat p).2 ≠ none
 
 /-- the header decision of `WriteResult` as the code takes it -/
